@@ -4,6 +4,7 @@ package server
 
 import (
 	"encoding/json"
+	"github.com/resgateio/resgate/server/mq"
 	"strings"
 
 	"github.com/resgateio/resgate/zzvf"
@@ -186,6 +187,7 @@ func VF_C19_L2_RefThrottle() {
 	r.issue(vfReqKind{method: "subscribe.test.big", verb: "subscribe", rid: "test.big"})
 	w.settle()
 	eventLeft := zzvf.Param("event")
+	timeoutsLeft := zzvf.ParamOr("timeouts", 1) // gets that are never answered (messaging timeout)
 	governed := func() int {
 		n := 0
 		for _, q := range w.mq.pending() {
@@ -222,12 +224,22 @@ func VF_C19_L2_RefThrottle() {
 				w.mq.answer(req, []byte(`{"result":{"get":true}}`), nil)
 			} else {
 				name := req.subject[len("get."):]
-				if zzvf.Choose("outcome", 2) == 0 {
+				nout := 2
+				if timeoutsLeft > 0 {
+					nout = 3
+				}
+				switch zzvf.Choose("outcome", nout) {
+				case 0:
 					zzvf.Note("service: " + req.subject + " -> data")
 					w.mq.answer(req, []byte(`{"result":`+res[name]+`}`), nil)
-				} else {
+				case 1:
 					zzvf.Note("service: " + req.subject + " -> notfound")
 					w.mq.answer(req, vfErrPayload("system.notFound", "Not found"), nil)
+				case 2:
+					// no answer at all: the messaging client reports a timeout
+					timeoutsLeft--
+					zzvf.Note("service: " + req.subject + " -> timeout")
+					w.mq.answer(req, nil, mq.ErrRequestTimeout)
 				}
 			}
 		}
